@@ -373,4 +373,26 @@ example :
     r.fs.dump = some [1, 2] ∧ r.child = none ∧ r.childStep.childStep.fs.dump = some [1, 2] := by
   decide
 
+/-- **The node's own dump and an incoming transfer use separate files.**  A `serialize` (any mode, any image, failing
+or not) at any moment of an incoming transfer leaves the half-received file and the open handle as they are, and no
+`setTransmissionData` call ever touches the dump: an own log compaction between two chunks can neither truncate what
+was received nor be appended to.  (Seeded C06-13 shares one temp file: the correspondence then differs in the operation
+list and the crash monitor of `corr.storage_dump` finds the mixed dump.) -/
+theorem own_dump_and_incoming_transfer_use_separate_files (r : Ser) (id : Nat) (pieces : List Bytes) (fail : Bool)
+    (m : Option Chunk) :
+    (r.serialize id pieces fail).1.fs.tmp1 = r.fs.tmp1 ∧ (r.serialize id pieces fail).1.incOpen = r.incOpen ∧
+    (r.setTransmissionData m).1.stored = r.stored :=
+  ⟨(serialize_frame r id pieces fail).2.2.2.1, (serialize_frame r id pieces fail).2.2.1, set_keeps_dump r m⟩
+
+/-- non-vacuity: own inline dump `[5,5]` between the two data chunks of `[1,2]`: the dump is `[7]`, then `[5,5]`, and
+after the install `[1,2]` — one complete snapshot at every point -/
+example :
+    let r : Ser := { mode := .file, batch := 1, fs := { dump := some [7] } }
+    let r1 := (r.feed [some ⟨[1], true, false⟩]).1
+    let r2 := ((r1.serialize 5 [[5], [5]] false).1.checkSerializing none).1
+    let r3 := (r2.feed [some ⟨[2], false, false⟩, some ⟨[], false, true⟩]).1
+    r1.stored = some [7] ∧ r2.stored = some [5, 5] ∧ r2.fs.tmp1 = some [1] ∧ r3.stored = some [5, 5] ∧
+    r3.incoming = some [1, 2] ∧ (r3.finishIncoming true).1.stored = some [1, 2] := by
+  decide
+
 end PSO.C09
